@@ -106,7 +106,7 @@ func genC02(t *rapid.T) statCase {
 		// cut-off k changes where (n-k+3)/2^(k+2) crosses 5: n = 5*2^(k+2)+k-3
 		var bs []int
 		for k := 2; k <= 13; k++ {
-			bs = append(bs, 5*(1<<uint(k+2))+k-3)
+			bs = append(bs, 5*(1<<uint(k+2))+k-3, 5*(1<<uint(k+2)))
 		}
 		n = drawLen(t, 100, bs)
 	case "longest":
@@ -175,7 +175,7 @@ func TestC02Sweep(t *testing.T) {
 		if thorough() && mode == "huge" && k < 19 {
 			continue
 		}
-		for _, n := range []int{b - 1, b, b + 1} {
+		for _, n := range []int{b - 1, b, b + 1, 5 * (1 << uint(k+2))} {
 			if n >= 100 && n <= maxN {
 				cases = append(cases, statCase{Test: "runsDist", Seq: gen.Seq{Family: "uniform", N: n, Seed: uint64(n)}})
 				cases = append(cases, statCase{Test: "runsDist", Seq: gen.Seq{Family: "runs", N: n, Seed: uint64(n), A: k + 2, B: k, F: 0.1}})
